@@ -256,7 +256,12 @@ func main() {
 	if spec.Engine == "procsim" {
 		// The helper process links the real daemon lock from /repo.
 		helper := filepath.Join(root, ".build", "procsim-helper")
-		cmd := exec.Command(goTool, "build", "-tags", "verif", "-o", helper, "./engines/procsim/helper")
+		args := []string{"build", "-tags", "verif"}
+		if js, _ := prepareOverlay(root); js != "" {
+			// (the same instrumented copies as the engine: automatic yield sites)
+			args = append(args, "-overlay", js)
+		}
+		cmd := exec.Command(goTool, append(args, "-o", helper, "./engines/procsim/helper")...)
 		cmd.Dir = root
 		cmd.Env = goEnv()
 		if b, err := cmd.CombinedOutput(); err != nil {
